@@ -80,6 +80,9 @@ def run(check: Check) -> None:
     from .roundtrip_sem import roundtrip
 
     roundtrip(check)  # RT-sem: export -> import -> export interpreted on model engines
+    from .pyroundtrip_sem import constructor_fidelity
+
+    constructor_fidelity(check)  # R1-sem: the importer's objects are built by the constructors: arguments are stored as given
     if check.tier == "thorough":
         corpus(check)
     check.exhaustive_parts += ["writer/reader tables compared entry by entry"]
